@@ -568,3 +568,80 @@ impl<Ctx: OptCtx> LoweredToMir<'_, Ctx> {
         crate::verif_hooks::c08::dump_items(&self.ir, &self.runtime.rt)
     }
 }
+
+#[cfg(feature = "verif-hooks")]
+impl<Ctx: OptCtx> LoweredToMir<'_, Ctx> {
+    /// Verification hook (C05): layout and reference bit of every parameter
+    /// and return type of every function item.
+    pub fn verif_c05_mir_sigs(&self) -> Vec<crate::verif_hooks::c05::MirSig> {
+        use crate::verif_hooks::c05::{MirSig, TyFacts};
+        let pool = &self.type_info.ty_pool;
+        let rt = &self.runtime.rt;
+        let facts = |ty| TyFacts {
+            layout: pool.layout_of(ty, rt).map(|l| (l.size(), l.align())),
+            is_reference_type: pool.is_reference_type(ty, rt),
+        };
+        self.ir
+            .items
+            .iter()
+            .filter_map(|item| {
+                let mir::ItemKind::Function { mir_signature, .. } = &item.ty
+                else {
+                    return None;
+                };
+                Some(MirSig {
+                    name: item.name.as_str().to_string(),
+                    params: mir_signature
+                        .parameter_types
+                        .iter()
+                        .map(|t| facts(*t))
+                        .collect(),
+                    ret: facts(mir_signature.return_type),
+                })
+            })
+            .collect()
+    }
+}
+
+#[cfg(feature = "verif-hooks")]
+impl<Ctx: OptCtx> LoweredToLir<'_, Ctx> {
+    /// Verification hook (C05): the lowered signature of every function item
+    /// and of every registered function the script calls.
+    pub fn verif_c05_ir_sigs(
+        &self,
+    ) -> (
+        Vec<crate::verif_hooks::c05::IrSig>,
+        Vec<crate::verif_hooks::c05::IrSig>,
+    ) {
+        use crate::verif_hooks::c05::IrSig;
+        let conv = |name: String, s: &lir::Signature| IrSig {
+            name,
+            params: s.parameters.iter().map(|(_, t)| format!("{t:?}")).collect(),
+            context: s.context,
+            return_ptr: s.return_ptr,
+            return_type: s.return_type.map(|t| format!("{t:?}")),
+        };
+        let items = self
+            .ir
+            .functions
+            .iter()
+            .filter_map(|item| {
+                let lir::ItemKind::Function { ir_signature, .. } = &item.kind
+                else {
+                    return None;
+                };
+                Some(conv(item.name.as_str().to_string(), ir_signature))
+            })
+            .collect();
+        let mut calls: Vec<_> = self
+            .runtime_functions
+            .iter()
+            .map(|(f, s)| {
+                let func = self.runtime.rt.get_function(*f);
+                (func.id, conv(func.name.ident.as_str().to_string(), s))
+            })
+            .collect();
+        calls.sort_by_key(|c| c.0);
+        (items, calls.into_iter().map(|c| c.1).collect())
+    }
+}
